@@ -44,6 +44,19 @@ func init() {
 	}
 }
 
+// ClosedBlocks returns the closed block constructs (each ends with a line ending and leaves nothing open), those
+// containing '[' left out when noBracket is set.
+func ClosedBlocks(noBracket bool) []string {
+	var out []string
+	for _, b := range closedBlocks {
+		if noBracket && strings.Contains(b, "[") {
+			continue
+		}
+		out = append(out, b)
+	}
+	return out
+}
+
 // endsClosed is the syntactic test of the side condition "does not end
 // inside an open fenced code block, indented code block or HTML block" for
 // documents assembled from closed-profile soup and closed blocks: the last
